@@ -1497,11 +1497,11 @@ func vRunCaseSpec(i int, text string, spec *vExpr, nvals int, seed int64, hang t
 		if ok2 && pr2.q != nil {
 			// Parsing twice: the two parses have different reference times (time.Now()), so absolute and
 			// relative time filters move against each other by the time between the parses. Compared on a
-			// coarse copy of the valuation: stream times half a second away from every critical value.
+			// coarse copy of the valuation: stream times about 0.38 s away from every critical value.
 			vc := vVal{}
 			for sq, st := range v {
 				c := *st
-				d := int64(500 * time.Millisecond)
+				d := int64(377123457) // an offset no sum of the constants of a query is likely to hit
 				if j%2 == 1 {
 					d = -d
 				}
